@@ -57,6 +57,58 @@ CHECKS = {
             TB + "Real-number theorems; binary64 behaviour is tied by correspondence and order checks on the grid, not proved.", "6/C18"),
 }
 
+CHECKS.update({
+    "C01": ("proof", "Lean 4 theorems (history independence via the C11 refinement; key canonicity) + process-matrix correspondence",
+            "C01_history_independent: along any history every call returns runText(last accepted text, env); C01_key_canonical: the hashed key "
+            "depends only on the set of splitter names. One seeded history is replayed in child interpreters over PYTHONHASHSEED x locale x cwd x "
+            "import order and every transcript must equal the Lean model's single pure function.",
+            TB + "Partial in one named respect: CPython's own determinism (hashlib, str(), sorted) is trusted; process-level facts cannot appear in a theorem.", "6/C01"),
+    "C04": ("other", "Lean 4 proof of the reduction to MD5 equidistribution + exact correspondence + labelled chi-square measurement",
+            "Proved: group counts are a function of the multiset of hash positions, each group is a grid interval of length w_i/T·2^32 (±1 point), "
+            "the whole key is hashed salt-first, and equidistribution of positions implies proportional counts. Every assignment of generated "
+            "populations equals the published scheme exactly. The premise (MD5 equidistributes realistic ids; independence across salts) is measured "
+            "by chi-square tests at 1e-9 — a statistical test, not a theorem.",
+            TB + "The statistical premise cannot be discharged by a proof assistant; it is measured on every run.", "6/C04"),
+    "C05": ("proof", "Lean 4 theorem (repr → Python literal scanner round-trip for every string) + literal-focused correspondence",
+            "C05_string_roundtrip: for every string and every printable classification, the text repr() emits is read back by Python's literal "
+            "scanner as exactly that string, consuming exactly that text (with Python's triple-quote corner stated explicitly). Numbers: the Dbl "
+            "model's decimal→double and repr are compared bit-for-bit; every literal position x adversarial content x confusable inputs is run on the real code.",
+            TB + "float repr / float() are modelled (shortest round-trip search) and validated, not proved; pydantic coercion mode is a probed flag.", "6/C05"),
+    "C08": ("proof", "Lean 4 theorems over the regenerated lexer tables (order facts, trivia contributes no tokens) + metamorphic correspondence",
+            "Table obligations by decide (string literals tried before comment rules; block-comment end rule first and lazy) and the generic "
+            "theorem that the tokens of an accepted text are exactly its token pieces. Trivia-variants of one token sequence must give equal ASTs "
+            "and results on the real code and equal the model.",
+            TB + "Partial: the full round-trip lex(render toks tr1) = lex(render toks tr2) for all trivia is tied by correspondence, not yet proved.", "6/C08"),
+    "C09": ("proof", "Lean 4 theorems (factorisation of the generated function; only declared fields are read; key injectivity) + metamorphic correspondence",
+            "C09_factorisation / C09_only_declared_fields / C09_missing_field / C09_splitter_order_irrelevant / C09_key_varies_with_salt about "
+            "the model of the generated function; pairs of calls / programs related by each transformation are run on the real code.",
+            TB, "6/C09"),
+    "C12": ("proof", "Lean 4 theorem (compiled position = published sentence) + three-way correspondence (code, Lean MD5, hashlib)",
+            "C12_compiled_position_eq_published: the argument the generated program passes to the choice function, hashed as the code does, is "
+            "MD5-first-32-bits of UTF-8(salt ++ str(values in sorted name order)); known-answer vectors pin the Lean MD5; whole evaluators are "
+            "compared with an independent implementation of the sentence.",
+            TB + "MD5 itself is modelled, pinned by RFC vectors and >= 4000 random keys per run.", "6/C12"),
+    "C13": ("proof", "Lean 4 theorems (masked skeleton invariant under literal substitution; rendered literal is one token) + structural correspondence",
+            "C13_skeleton_invariant and C13_literal_is_one_token (from the string round-trip); on the real generator the masked ast.dump must be "
+            "identical across adversarial substitutions and equal to the masked dump of the model's text, and a sentinel planted in builtins must never run.",
+            TB + "Python's full parser is not modelled: structure equality of real and model text is checked with Python's own ast on every case.", "6/C13"),
+    "C14": ("proof", "Lean 4 theorem (both layouts route identically) + executed generate_code correspondence",
+            "C14_layouts_equivalent: the emitted body at depth 1 and depth 2 executes to the same routed result (C02 at two depths); "
+            "generate_code(text, expose) for both layouts is exec'd in a fresh namespace and compared with the evaluator and the model.",
+            TB + "black is outside the model: that it preserves the AST is checked on every case.", "6/C14"),
+    "C15": ("proof", "Lean 4 theorems (totality of key construction and choice over the five value types) + value-type correspondence",
+            "C15_total / C15_keyOf_total / C15_utf8_never_encode_error / C15_same_print_same_key; splitter and extra fields of all five types "
+            "with extremes, under all salt kinds, on the real code and the model.",
+            TB + "Guards stated explicitly: ints beyond CPython's 4300-digit limit and lone surrogates (finding family K3).", "6/C15"),
+    "C17": ("proof", "Lean 4 interleaving theorems (all schedules) + effect table regenerated from /repo, by decide + threaded stress",
+            "C17_noninterference / C17_publish_atomic(_two_writers) over an abstract shared-memory machine for every schedule and any number of "
+            "threads; their hypotheses are discharged against the source: every write effect on the compile/evaluate paths is thread-local, the "
+            "lexer and parser are allocated per call, recompile publishes with one store after building. 2..16 threads at 1 microsecond switch "
+            "interval are a search aid.",
+            TB + "Partial: GIL atomicity of one attribute store/load, thread-safety of re/pydantic/exec/hashlib and soundness of the syntactic "
+                 "effect extraction are assumptions; free-threaded CPython is out of scope.", "6/C17"),
+})
+
 NOT_YET = "check under construction (DESIGN.md section 10); model and correspondence exist, theorems being integrated"
 
 
